@@ -106,7 +106,13 @@ int streamWrapper(void *ptr, const MPT_STRUCT(message) *msg)
 				        MPT_tr("dispatch failed"), MPT_tr("unknown reply id"), mid);
 				return MPT_ERROR(BadValue);
 			}
-			return ans->cmd(ans->arg, &tmp);
+			/* answered request is done with: unlink before call (handler may change the table) */
+			{
+				int (*fcn)(void *, void *) = ans->cmd;
+				void *arg = ans->arg;
+				ans->cmd = 0;
+				return fcn(arg, &tmp);
+			}
 		}
 		ctx = 0;
 		for (i = 0; i < idlen; ++i) {
@@ -262,7 +268,13 @@ extern int mpt_connection_dispatch(MPT_STRUCT(connection) *con, MPT_TYPE(event_h
 		}
 		msg.base = data + hlen;
 		msg.used = buf->_used - hlen;
-		len = ans->cmd(ans->arg, &msg);
+		/* answered request is done with: unlink before call (handler may change the table) */
+		{
+			int (*fcn)(void *, void *) = ans->cmd;
+			void *arg = ans->arg;
+			ans->cmd = 0;
+			len = fcn(arg, &msg);
+		}
 		dispatchFinished(con);
 		if (len < 0) {
 			mpt_log(0, _func, MPT_LOG(Error), "%s (%i)",
